@@ -106,7 +106,7 @@ inline size_t call_vmessage(char *buf, size_t len, const char *addr, const char 
 }
 
 // observed value of one decoded argument, in the abstract form
-inline void obs_val(JW &w, char t, const rtosc_arg_t &g) {
+inline void obs_val(JW &w, char t, const rtosc_arg_t &g, long maxblob = 100000) {
     switch (t) {
         case 'i': case 'c': case 'r': w.limbs32((uint32_t)g.i); break;
         case 'f': { uint32_t u; memcpy(&u, &g.f, 4); w.limbs32(u); break; }
@@ -114,7 +114,8 @@ inline void obs_val(JW &w, char t, const rtosc_arg_t &g) {
         case 'd': { uint64_t u; memcpy(&u, &g.d, 8); w.limbs64(u); break; }
         case 'm': w.bytes(g.m, 4); break;
         case 's': case 'S': w.bytes((const uint8_t *)g.s, g.s ? strlen(g.s) : 0); break;
-        case 'b': { size_t n = g.b.len < 0 ? 0 : (size_t)g.b.len; if (n > 100000) n = 0; w.arr(); for (size_t i = 0; i < n; ++i) w.num(g.b.data[i]); w.end_arr(); break; }
+        case 'b': { if (g.b.len < 0 || g.b.len > maxblob) { w.arr().num(-1).num(((uint32_t)g.b.len) >> 16).num(((uint32_t)g.b.len) & 0xffff).end_arr(); break; }
+                    size_t n = (size_t)g.b.len; w.arr(); for (size_t i = 0; i < n; ++i) w.num(g.b.data[i]); w.end_arr(); break; }
         case 'T': case 'F': w.arr().num(g.T ? 1 : 0).end_arr(); break;
         default: w.arr().end_arr();
     }
